@@ -24,8 +24,9 @@ import (
 )
 
 const (
-	hostA = "a.example"
-	hostB = "b.example"
+	// two registries on one hostname, told apart by the port only
+	hostA = "reg.example:5000"
+	hostB = "reg.example:5001"
 	hostT = "t.example"
 )
 
@@ -56,8 +57,15 @@ type Scenario struct {
 	Seed     int64              `json:"seed"`
 }
 
+func hostTag(host string) string {
+	if host == hostB {
+		return "B"
+	}
+	return "A"
+}
+
 func creds(host string, flow string) auth.Credential {
-	tag := strings.ToUpper(host[:1])
+	tag := hostTag(host)
 	switch flow {
 	case "refresh":
 		return auth.Credential{RefreshToken: "REFRESH-" + tag}
@@ -229,7 +237,7 @@ func (w *world) RoundTrip(req *http.Request) (*http.Response, error) {
 		return resp(401, http.Header{"Www-Authenticate": {`Basic realm="` + host + `"`}}, "")
 	default:
 		need := requiredScope(repo, req.Method)
-		if authz == "Bearer ACCESS-"+strings.ToUpper(host[:1]) || (tokHost == host && covers(tokScopes, need)) {
+		if authz == "Bearer ACCESS-"+hostTag(host) || (tokHost == host && covers(tokScopes, need)) {
 			return resp(200, nil, "")
 		}
 		return resp(401, http.Header{"Www-Authenticate": {fmt.Sprintf(`Bearer realm="http://%s/token",service="%s",scope="%s"`, cfg.Realm, host, need)}}, "")
